@@ -2,8 +2,8 @@
 
 * `read_glyph` / `read_glyphset`: real defcon / ufoLib2 glyph objects (or any mapping of them)
   -> the glyph-spec format of vf/build.py, through the point-pen protocol only (library agnostic);
-* `drawing(glyphs, name)`: exact-rational closed cycles of the fully resolved glyph (R.resolve
-  + R.ref_cycles: composed matrices, reversal by composed determinant);
+* `Snap(glyphs).cycles(name)`: exact-rational closed cycles of the fully resolved glyph
+  (R.resolve + R.ref_cycles: composed matrices, reversal by composed determinant), cached;
 * exact comparison (multiset of direction-sensitive canonical cycles, order recorded) and
   tolerance comparison (bipartite matching of cycles, every point within `dev`);
 * `anchor_candidates`: closure of the positions where *some* component path puts an anchor of a
@@ -59,14 +59,47 @@ def read_glyphset(mapping):
 # outlines
 
 
+def exactify(g):
+    """Glyph spec with all coordinates / matrix entries as exact rationals (converted once)."""
+    return {
+        "name": g.get("name"),
+        "contours": [[[R.fr(p[0]), R.fr(p[1]), p[2], bool(p[3]) if len(p) > 3 else False]
+                      for p in c] for c in g.get("contours", [])],
+        "components": [{"base": c["base"], "t": R.mat(c["t"])} for c in g.get("components", [])],
+    }
+
+
+class Snap:
+    """A glyph set (name -> spec) with cached exact resolutions."""
+
+    def __init__(self, glyphs):
+        self.glyphs = {n: exactify(g) for n, g in glyphs.items()}
+        self._res = {}
+        self._cyc = {}
+
+    def resolved(self, name):
+        r = self._res.get(name)
+        if r is None:
+            r = self._res[name] = R.resolve(self.glyphs, name)
+        return r
+
+    def cycles(self, name):
+        """Closed cycles [(start, segs)] of the fully resolved glyph, exact rationals; quadratics
+        kept (implied on-curve points made explicit); flipped leaves reversed."""
+        c = self._cyc.get(name)
+        if c is None:
+            c = self._cyc[name] = R.ref_cycles(self.resolved(name), keep_quadratic=True)
+        return c
+
+    def n_flipped(self, name):
+        return sum(1 for _, flip in self.resolved(name) if flip)
+
+    def draws_nothing(self, name):
+        return not any(segs for _, segs in self.cycles(name))
+
+
 def drawing(glyphs, name):
-    """Closed cycles [(start, segs)] of the fully resolved glyph, exact rationals; quadratics
-    kept (implied on-curve points made explicit)."""
     return R.ref_cycles(R.resolve(glyphs, name), keep_quadratic=True)
-
-
-def n_flipped(glyphs, name):
-    return sum(1 for _, flip in R.resolve(glyphs, name) if flip)
 
 
 def map_cycles(m, cycles):
@@ -98,40 +131,39 @@ def max_abs(cycles):
     return m
 
 
+def _as_closed(start, segs):
+    """Cyclic segment list of one contour; NOTHING is cleaned away (the filters pass every point
+    through, so zero-length segments and single points must survive as they are)."""
+    if not segs:
+        return [("p", start)]
+    return list(segs)
+
+
+def canon_raw(cycles):
+    out = []
+    for start, segs in cycles:
+        if not segs:
+            out.append((("p", start),))
+        else:
+            out.append(R.canon_cycle(list(segs)))
+    return out
+
+
 def compare_exact(ref, got):
-    """-> (same_multiset, same_order)"""
-    a = R.canon_drawing(ref)
-    b = R.canon_drawing(got)
+    """Exact comparison of two drawings as multisets of direction-sensitive closed cycles
+    (start point free).  -> (same_multiset, same_order)"""
+    from collections import Counter
+    a = canon_raw(ref)
+    b = canon_raw(got)
     if a == b:
         return True, True
-    key = lambda c: R._flat(c)  # noqa: E731
-    return sorted(a, key=key) == sorted(b, key=key), False
-
-
-def _prep_tol(cycles, dev):
-    """Clean cycles for a tolerance comparison: exact draws-nothing operations removed, then
-    segments all of whose points lie within 2*dev of the segment's start removed (they are
-    indistinguishable from a zero-length segment at the granted precision)."""
-    out = []
-    for s, segs in cycles:
-        c = R.clean_cycle(s, segs)
-        if not c:
-            continue
-        kept = []
-        for i in range(len(c)):
-            a = c[i - 1][-1]
-            if all(abs(p[0] - a[0]) <= 2 * dev and abs(p[1] - a[1]) <= 2 * dev for p in c[i][1:]):
-                continue
-            kept.append(c[i])
-        if kept:
-            out.append(kept)
-    return out
+    return Counter(a) == Counter(b), False
 
 
 def _match(ref, got, dev):
     n = len(ref)
     if n != len(got):
-        return None
+        return False
     for k in range(n):
         ok = True
         for i in range(n):
@@ -147,14 +179,14 @@ def _match(ref, got, dev):
                 break
         if ok:
             return True
-    return None
+    return False
 
 
 def compare_tol(ref, got, dev):
     """Multiset comparison of closed cycles with every point within dev (per coordinate),
     direction-sensitive, start point free.  -> (ok, same_order)"""
-    a = _prep_tol(ref, dev)
-    b = _prep_tol(got, dev)
+    a = [_as_closed(s, segs) for s, segs in ref]
+    b = [_as_closed(s, segs) for s, segs in got]
     if len(a) != len(b):
         return False, False
     if all(_match(x, y, dev) for x, y in zip(a, b)):
